@@ -81,9 +81,22 @@ package oauth2
 //@   props C05
 //@   modifies nothing
 
+// "the required scopes are matched": exact - a required scope is matched by that very scope
+//@ func (ExactScopeStrategyMatcher).doMatch
+//@   props C05
+//@   modifies nothing
+//@   ensures ret0 ==> (exists i int :: 0 <= i && i < len(haystack) && old(haystack[i]) == needle)
+//@   ensures !ret0 ==> (forall i int :: 0 <= i && i < len(haystack) ==> old(haystack[i]) != needle)
+//@   loop 0 invariant idx + 1 <= len(haystack) && forall i int :: 0 <= i && i <= idx ==> old(haystack[i]) != needle
+
+// hierarchic - a required scope is matched by itself and by every scope above it in the
+// dot-separated hierarchy ("foo" includes "foo.bar"), by nothing else. Beyond the solvers (two
+// Splits and a nested loop over their results): decided up to a bound by the stand-in
+// "hierarchic-scopes" of contracts/props/C05.json.
 //@ func (HierarchicScopeStrategyMatcher).doMatch
 //@   props C05
 //@   modifies nothing
+//@   ensures ret0 <==> (exists i int :: 0 <= i && i < len(haystack) && (old(haystack[i]) == needle || hasPrefix(needle, old(haystack[i]) + ".")))
 
 //@ func (WildcardScopeStrategyMatcher).doMatch
 //@   props C05
